@@ -54,8 +54,20 @@ def _case(draw, fa, fb):
     f = draw(st.sampled_from([0.2, 0.4, 0.6, 0.8]))
     # clear partial overlap: the inscribed balls (radii ia, ib) overlap by
     # pen = f * min(ia, ib) and neither contains the other's centre
+    # ... and by more than the bodies' meshes deviate from the ideal shapes
+    # (icosphere of order 2: 1.5 % of the radius; 8 segments: 8 %), otherwise
+    # the polyhedral bodies may not touch at all in one of the two frames. A
+    # body whose mesh error exceeds a fifth of the smaller inradius is shrunk.
+    for _ in range(4):
+        ia, ib = _inradius(a), _inradius(b)
+        ea, eb = _mesh_error(a), _mesh_error(b)
+        if ea + eb <= 0.2 * min(ia, ib):
+            break
+        k = max(0.05, 0.18 * min(ia, ib) / (ea + eb))
+        _scale_body(a if ea >= eb else b, k)
     ia, ib = _inradius(a), _inradius(b)
-    b["p"] = (np.array(a["p"]) + (ia + ib - f * min(ia, ib)) * u).tolist()
+    pen = min(max(f * min(ia, ib), 2.5 * (_mesh_error(a) + _mesh_error(b))), 0.8 * min(ia, ib))
+    b["p"] = (np.array(a["p"]) + (ia + ib - pen) * u).tolist()
     c3["p"] = (np.array(a["p"]) - 0.5 * min(ra, _body_radius(c3)) * u).tolist()
     g = {"R": draw(atoms.rotations(("random", "perm", "special"))),
          "t": draw(st.one_of(atoms.positions(10.0), atoms.pos_ball(300.0)))}
@@ -76,6 +88,27 @@ def _inradius(c):
     if f == "cylinder":
         return min(c["radius"], c["length"] / 2)
     return c["radius"]
+
+
+def _mesh_error(c):
+    """Upper estimate of the distance between the tetrahedral mesh of a body
+    and the ideal shape it approximates."""
+    f = c["factory"]
+    if f == "sphere":
+        return 0.015 * c["radius"]
+    if f == "ellipsoid":
+        return 0.015 * max(c["radii"])
+    if f in ("cylinder", "capsule"):
+        return 0.08 * c["radius"]
+    return 0.0
+
+
+def _scale_body(c, k):
+    for key in ("radius", "size", "length", "height"):
+        if key in c:
+            c[key] = (np.array(c[key]) * k).tolist() if isinstance(c[key], list) else c[key] * k
+    if "radii" in c:
+        c["radii"] = [x * k for x in c["radii"]]
 
 
 def strategy(cell):
